@@ -116,6 +116,11 @@ class Summary:
         return (tuple(sorted(self.mutates)), self.ret, tuple(sorted(self.reads_globals)))
 
 
+IMMUTABLE_CALLS = ("frozenset", "tuple", "str", "int", "float", "complex", "bool", "bytes", "re.compile", "namedtuple", "collections.namedtuple", "NamedTuple", "TypeVar", "typing.TypeVar",
+                   "logging.getLogger", "getLogger", "object", "property", "staticmethod", "classmethod", "Enum", "np.dtype", "np.float64", "np.int64", "np.complex128",
+                   "sym.Symbol", "Symbol", "sym.symbols", "os.path.join", "os.path.dirname", "os.path.abspath", "os.getcwd", "len", "min", "max", "type")
+
+
 class Eff:
     def __init__(self, index, mutable_globals=None):
         self.ix = index
@@ -128,9 +133,9 @@ class Eff:
             for m in index.mods:
                 g = set()
                 for name, val in index.module_globals(m).items():
+                    # displays, container constructors, and every other object made by a call that is not known to be immutable
                     if isinstance(val, (ast.Dict, ast.List, ast.Set, ast.ListComp, ast.DictComp, ast.SetComp)) or (
-                            isinstance(val, ast.Call) and u(val.func) in ("dict", "list", "set", "OrderedDict", "defaultdict", "collections.OrderedDict",
-                                                                          "collections.defaultdict", "deque")):
+                            isinstance(val, ast.Call) and u(val.func) not in IMMUTABLE_CALLS):
                         g.add(name)
                 self.mutable_globals[m] = g
         self.immutable_fields = self._immutable_fields()
